@@ -59,7 +59,7 @@ func genValue(r *RNG, keyLen int, maxLen int) (class string, v []byte) {
 
 // genKey returns a valid key (1..250 bytes, no control/space, not starting with @ or ?).
 func genKey(r *RNG) string {
-	lens := []int{1, 2, 3, 8, 16, 100, 249, 250}
+	lens := []int{1, 2, 3, 3, 4, 5, 8, 8, 12, 16, 16, 30, 100, 249, 250}
 	n := lens[r.Intn(len(lens))]
 	b := make([]byte, n)
 	for i := range b {
